@@ -94,13 +94,13 @@ def fixedToNaive (utc : NDT) : NDT := utc
 
 /-- `date_from_rfc3339` under TZ=UTC -/
 def dateFromRfc3339 : List (Value N) → Option (Res N)
-  | [.str s] => Time.finish ((rfc3339Utc s).map fun u => (fixedToNaive u).millis)
+  | [.str s] => some (Time.finish ((rfc3339Utc s).map fun u => (fixedToNaive u).millis))
   | [_] => some (.error .wrongParameterType)
   | _ => some (.error (.wrongParameterCount 1))
 
 /-- `date_from_rfc2822` under TZ=UTC -/
 def dateFromRfc2822 : List (Value N) → Option (Res N)
-  | [.str s] => Time.finish ((rfc2822Utc s).map fun u => (fixedToNaive u).millis)
+  | [.str s] => some (Time.finish ((rfc2822Utc s).map fun u => (fixedToNaive u).millis))
   | [_] => some (.error .wrongParameterType)
   | _ => some (.error (.wrongParameterCount 1))
 
